@@ -54,6 +54,13 @@ def handle (j : J) : J :=
           | none => J.null
           | some (d, rest) => .obj [("dna", dnaToJ d), ("left", .int rest.length),
                                      ("valid", .bool (g.valid d))]
+      let prevRandoms := ((j.getArr? "prev_draws").getD []).map fun pj =>
+        match (pj.get? "prev").bind dnaOfJ, (pj.getArr? "draws").bind (·.mapM drawOfJ) with
+        | some pd, some o =>
+          (match g.randomPrev (some pd) o with
+           | none => J.null
+           | some (d, rest) => .obj [("dna", dnaToJ d), ("left", .int rest.length)])
+        | _, _ => bad "prev_draws"
       let cmps := ((j.getArr? "cmps").getD []).map fun p =>
         match p with
         | .arr [a, b] =>
@@ -61,7 +68,7 @@ def handle (j : J) : J :=
           | some x, some y => ordToJ (DNA.cmp x y)
           | _, _ => bad "cmp"
         | _ => bad "cmp"
-      .obj (base ++ enumPart ++ sweepPart ++ [("checks", .arr checks), ("randoms", .arr randoms), ("cmps", .arr cmps)])
+      .obj (base ++ enumPart ++ sweepPart ++ [("checks", .arr checks), ("randoms", .arr randoms), ("prev_randoms", .arr prevRandoms), ("cmps", .arr cmps)])
   | _ => bad "op"
 
 def main : IO Unit := driverLoop handle
